@@ -288,6 +288,27 @@ def _check_slot(res, cls, slot, vname, build, s):
                           % (cls, slot, s, carried),
                           {'kind': 'ctor', 'cls': cls, 'slot': slot,
                            'string': s}, size=len(s))
+        elif want and slot != 'path':
+            # (paths are excluded: the library takes a path through
+            # ObjectPath(value), i.e. str(value), so for a path the
+            # rendering *is* the name - a convention, and a loud refusal
+            # when the rendering is no path)
+            # the same valid name given as an instance of a str subclass
+            # whose str() is not its content (str-mixin enumeration members
+            # are such): it is that string which is validated and carried
+            res.count('evaluations')
+            try:
+                msg2 = build(space._OddStr(s))
+                carried = R.parse_message(msg2.rawMessage)['fields'].get(slot)
+            except Exception as e:
+                carried = 'raised %r' % (e,)
+            if carried != s:
+                res.violation('C18/ctor/%s.%s/str-subclass' % (cls, slot),
+                              '%s(%s=<str subclass instance equal to %r>) '
+                              'carries %r on the wire'
+                              % (cls, slot, s, carried),
+                              {'kind': 'ctor', 'cls': cls, 'slot': slot,
+                               'string': s}, size=len(s))
     res.outcome((cls, slot, got))
 
 
@@ -338,7 +359,8 @@ def run(ctx):
         'specification grammar; the 253..300 byte boundary; every string of '
         'length <= %d (and a list of special names) in each of the 11 '
         'name-carrying constructor slots, the wire content re-read by the '
-        'reference parser. state = distinct string, transition = one '
+        'reference parser (valid names also as instances of a str subclass '
+        'whose str() differs from its content). state = distinct string, transition = one '
         'validator/constructor call. non-trivial = string accepted by at '
         'least one grammar. Also every string of length <= %d over that '
         'alphabet extended with %r (case-folding letters, a non-ASCII digit, '
